@@ -239,6 +239,7 @@ def _run_task(task):
 
 
 def explore(driver, tier, seed):
+    driver.TIER = tier
     spaces = driver.spaces(tier)
     _G.update(driver=driver, spaces=spaces, seed=seed)
     tasks = []
@@ -340,6 +341,9 @@ def write_evidence(driver, tier, seed, spaces, acc, wall, nviol, replay=False):
 def run_check(driver, tier, seed):
     t0 = time.time()
     assert_bound_tree()
+    if getattr(driver, "SINGLE_THREAD_RAPIDFUZZ", False):
+        from mc.seams import single_thread_rapidfuzz
+        single_thread_rapidfuzz()
     if hasattr(driver, "selfcheck"):
         driver.selfcheck(tier)
     spaces, acc = explore(driver, tier, seed)
@@ -393,6 +397,9 @@ def run_check(driver, tier, seed):
 
 def run_replay(driver, path):
     assert_bound_tree()
+    if getattr(driver, "SINGLE_THREAD_RAPIDFUZZ", False):
+        from mc.seams import single_thread_rapidfuzz
+        single_thread_rapidfuzz()
     rec = json.load(open(path))
     case = tuplify(rec["case"])
     acc = Acc()
